@@ -62,6 +62,8 @@ package api
 //@ func TraceError(entry, err)
 //@   props C01
 //@   panics never
-//@   ensures[recorded] entry != nil && err != nil && entry.ctx != nil ==> entry.ctx.err == err
+//@   objinv entry != nil && oncedone(entry.exitCtl) ==> entry.exited != 0
+//@   ensures[recorded] entry != nil && err != nil && entry.ctx != nil && entry.exited == 0 ==> entry.ctx.err == err
 //@   ensures[ignored] (entry == nil || err == nil) ==> frame()
+//@   ensures[late-call-changes-nothing] entry != nil && oncedone(entry.exitCtl) ==> frame()
 //@   modifies entry.ctx.err
